@@ -41,6 +41,15 @@ def CClass.isSpace : CClass → Bool
   | .space => true
   | _ => false
 
+/-- Python's classes of the ASCII characters (the driver uses them for characters that are
+    not in the request, e.g. the `'0'` padding of `_parsems`; theorems about renderings assume `cls`
+    agrees with them on ASCII) -/
+def asciiCls (c : Char) : CClass :=
+  if ('a' ≤ c ∧ c ≤ 'z') ∨ ('A' ≤ c ∧ c ≤ 'Z') then .alpha
+  else if '0' ≤ c ∧ c ≤ '9' then .decDigit (c.toNat - '0'.toNat)
+  else if c = ' ' ∨ (9 ≤ c.toNat ∧ c.toNat ≤ 13) ∨ (28 ≤ c.toNat ∧ c.toNat ≤ 31) then .space
+  else .other
+
 /-- the `state` variable of `get_token` -/
 inductive LState where
   | none | a | n | aDot | nDot      -- None, 'a', '0', 'a.', '0.'
